@@ -1140,6 +1140,44 @@ func (h *c17) relayForged(relayer, victim, to int, amt int64) {
 	}
 }
 
+// relaySigned: a transaction through the whole ante chain, signed by `signer`, that carries an x/ethereum MsgRelay whose
+// Ethereum payload is signed with the key of `key` and embeds a bank send of `key`'s coins to `to`. Custody says: coins of
+// a guarded account leave only through a custody transfer its custodians approved - whoever relays. The model is told
+// only the balances afterwards (`custody setbal`); every custody record must look as before.
+func (h *c17) relaySigned(signer, key, to int, amt int64) {
+	w := h.w
+	pre := h.snapshot()
+	msg := w.RelayMsg(signer, key, banktypes.NewMsgSend(w.addrs[key], w.addrs[to], ukex(amt)))
+	br := w.Block([][]byte{w.MustSign([]sdk.Msg{msg}, signer, ukex(1000))}, BlockOpts{})
+	if br.Panicked != nil {
+		h.r.Fail("C17/block/panic", fmt.Sprintf("relay block panicked in %s: %v", br.Phase, br.Panicked), h.replay())
+		return
+	}
+	w.ApplyUpdates(br.Updates)
+	post := h.snapshot()
+	okTx := len(br.Results) == 1 && br.Results[0].Code == 0
+	h.r.Mark(fmt.Sprintf("transaction of %d relaying an Ethereum transaction signed by %d that sends %d ukex of %d to %d", signer, key, amt, key, to))
+	out := "ok"
+	if !okTx && len(br.Results) == 1 {
+		out = c17Class(br.Results[0])
+	}
+	h.op(fmt.Sprintf("custody relay %d %d %d %d %d", signer, key, to, amt, 1000), out)
+	for i := 0; i < c17NAcc; i++ {
+		h.op(fmt.Sprintf("custody obs %d", i), post[i].str)
+	}
+	h.r.Count(fmt.Sprintf("relay-signed:self=%v:guarded=%v:%v", signer == key, c17Guarded(pre[key]), okTx))
+	h.r.Case(fmt.Sprintf("relay-signed/%d/%d/%v", signer, key, okTx), true)
+	moved := post[key].bal[0] < pre[key].bal[0]-map[bool]int64{true: 1000, false: 0}[signer == key && okTx]
+	if c17Guarded(pre[key]) && moved {
+		what := fmt.Sprintf("a transaction of account %d relayed an Ethereum transaction signed by the guarded account %d: %d ukex left account %d without any custodian approval", signer, key, pre[key].bal[0]-post[key].bal[0], key)
+		if signer == key {
+			h.r.Fail("C17/relay/guarded-account-relays-its-own-send", what, h.replay())
+		} else {
+			h.r.Known("C17/relay/ignores-custody", what)
+		}
+	}
+}
+
 // rotationStrand: a guarded account with a pending transfer and one of two approvals is rotated to a new address (its
 // owner proves the recovery secret). "Each custodian counts once": the custodian who approved before the rotation must
 // not be counted again afterwards - under the old or the new address -, and the coins leave only once both custodians
@@ -1792,6 +1830,10 @@ func runC17(r *Rec) {
 		h.relayForged(7, 1, 7, 900000)
 		h.relayForged(7, 2, 8, 5000)
 		h.relayForged(4, 1, 3, 1)
+		// … and relays of what the guarded account 1 signed itself: sent by itself, and by the unguarded account 7
+		h.relaySigned(1, 1, 7, 400000)
+		h.relaySigned(7, 1, 7, 300000)
+		h.relaySigned(7, 7, 8, 1000) // nobody guarded: an ordinary relay
 	}
 	h.keyMatrix()
 	h.policyMatrix()
